@@ -22,6 +22,9 @@ RULE = (
     "exit / shutdown at the instant of other activity, or a history containing a cancel. Distinct = digest of the case."
 )
 ASSUMPTIONS = ["user functions do not reference the executor (stated by the property)",
+               "a FAILED future that the user still holds counts as a user reference to the executor: its exception's traceback keeps the "
+               "frames that ran the callable, and with an inline (sync) delegate those are the worker's own frames whose locals include the "
+               "executor (CPython semantics, confirmed with real threads) - 'drop' programs therefore hold completed and cancelled futures only",
                "the harness itself holds no strong references after 'forget' (events store names and JSON summaries only)"]
 
 WORKER = ("RetryExecutor", "PollExecutor", "ThrottleExecutor", "TimeoutExecutor")
@@ -93,6 +96,34 @@ def catalog():
         "threads": [[sub("f0", [["retobj"]]), sub("f1", [["retobj"]]), ["sleep", 0.5], ["run", "ex", 0], ["sleep", 1.0], ["cancel", "f1"],
                      ["forget", "f0"], ["forget", "f1"], ["forget_base"], ["sleep", 0.1], ["gc"], ["alive"], ["threads"]]],
         "settle": 1, "final": []}}
+    # cancel() of a polled future at the very instant its delegate completes (registration for polling vs cancel)
+    out["refs/poll-cancel-at-registration"] = {"action": "forget", "prog": {
+        "setup": [["build", "ex", {"base": {"kind": "manual"}, "layers": [dict(layer("poll"), per_sub={"f0.fn": {"after": None}, "f1.fn": {"after": None}}, cancel=[["ret", True]])]}],
+                  sub("f0", [["retobj"]]), sub("f1", [["retobj"]]), ["sleep", 0.1]],
+        "threads": [[["sleep", 0.5], ["run", "ex", 0], ["run", "ex", 1]], [["sleep", 0.5], ["cancel", "f0"], ["cancel", "f1"]],
+                    [["sleep", 1.5], ["cancel", "f0"], ["cancel", "f1"], ["sleep", 0.1], ["forget", "f0"], ["forget", "f1"], ["forget_base"], ["sleep", 0.6], ["gc"], ["alive"], ["threads"]]],
+        "settle": 1, "final": []}}
+    # finished futures the user still HOLDS must not keep the executor (and so its worker) alive after it is dropped:
+    # completed, failed, cancelled between retries / while queued / in the polling stage / in flight
+    held = {
+        "retry": ({"kind": "sync"}, [layer("retry")],
+                  [sub("f0", [["raise", "E0"], ["retobj"]]), sub("f1", [["retobj"]]), sub("f2", [["raise", "E2"]]), ["sleep", 1.0], ["cancel", "f0"], ["forget", "f2"]]),
+        "retry-in-flight": ({"kind": "manual"}, [layer("retry")],
+                            [sub("f0", [["retobj"]]), sub("f1", [["retobj"]]), ["sleep", 0.5], ["cancel", "f0"], ["run", "ex", 1], ["sleep", 0.1]]),
+        "throttle": ({"kind": "manual"}, [layer("throttle")],
+                     [sub("f0", [["retobj"]]), sub("f1", [["retobj"]]), ["sleep", 0.5], ["cancel", "f1"], ["run", "ex", 0], ["sleep", 0.1], ["runall", "ex"], ["sleep", 0.1]]),
+        "poll": ({"kind": "manual"}, [dict(layer("poll"), per_sub={"f1.fn": {"after": None}})],
+                 [sub("f0", [["retobj"]]), sub("f1", [["retobj"]]), ["sleep", 0.25], ["runall", "ex"], ["sleep", 1.0], ["cancel", "f1"], ["sleep", 0.1]]),
+        "timeout": ({"kind": "manual"}, [layer("timeout")],
+                    [sub("f0", [["retobj"]]), sub("f1", [["retobj"]]), ["sleep", 0.25], ["run", "ex", 0], ["cancel", "f1"], ["sleep", 0.1]]),
+        "retry+timeout": ({"kind": "manual"}, [layer("retry"), layer("timeout")],
+                          [sub("f0", [["raise", "E0"], ["retobj"]]), sub("f1", [["retobj"]]), ["sleep", 0.25], ["runall", "ex"], ["sleep", 1.0], ["cancel", "f0"], ["sleep", 0.1]]),
+    }
+    for kind, (b, layers, hist) in sorted(held.items()):
+        out["drop-held/" + kind] = {"action": "drop", "prog": {
+            "setup": [["build", "ex", {"base": b, "layers": layers}]],
+            "threads": [hist + [["state", "f0"], ["state", "f1"], ["forget_base"]] + ends("drop", False)],
+            "settle": 1, "final": [["threads"]]}}
     # a pending future outlives its executor
     for kind in ("retry-fast", "poll", "throttle", "timeout", "map"):
         out["pending-after-drop/" + kind] = {"action": "drop-pending", "prog": {
@@ -186,14 +217,18 @@ def case_strategy():
         t0.append(["sleep", 0.25])
         for _ in range(draw(st.integers(0, 4))):
             t0.append(draw(st.sampled_from([["runall", "ex"], ["run", "ex", draw(st.integers(0, n))], ["cancel", draw(st.sampled_from(names))], ["sleep", 0.5]])))
-        action = draw(st.sampled_from(["forget", "forget", "shutdown", "exit"]))
+        action = draw(st.sampled_from(["forget", "forget", "shutdown", "exit", "drop"]))
         # finish everything so that "forget" is meaningful: cancel what is still pending
         t0 += [["runall", "ex"], ["sleep", 1.0]] if base == "manual" else [["sleep", 1.0]]
         for f in names:
             t0.append(["cancel", f])
         t0.append(["sleep", 0.1])
-        for f in names:
-            t0.append(["forget", f])
+        for f, op in zip(names, [o for o in t0 if o[0] == "submit"]):
+            # "drop": the user keeps holding the finished futures and drops the executor - except failed ones, whose
+            # traceback references the frames that ran the callable (with an inline base: the worker's own frames, whose
+            # locals include the executor), which makes a held failed future a user reference to the executor
+            if action != "drop" or any(b[0] == "raise" for b in op[3]["script"]):
+                t0.append(["forget", f])
         t0.append(["forget_base"])
         t0 += ends(action, False)
         prog = {"setup": [["build", "ex", {"base": {"kind": base}, "layers": [layer(k) for k in kinds]}]], "threads": [t0], "settle": 1,
